@@ -666,11 +666,7 @@ func (x *c01Run) exec() {
 			}
 		}
 		// L3 fidelity against the value that was written
-		sliced := false
-		if f, ok := fieldsOf(vals[i]); ok && f.Region != nil {
-			sliced = true
-		}
-		if !sliced {
+		{
 			structural := sc.Records[i].Gen != nil && len(sc.Records[i].Ops) == 0 && len(sc.Records[i].Dialect) == 0
 			if field, detail := compareRecords(vals[i], r2.Seqs[k], structural); field != "" {
 				x.violate("fidelity:"+field, srcKind(sc.Records[i]), fmt.Sprintf("record %d read back differs from what was written in %s: %s", i, field, detail))
